@@ -203,7 +203,9 @@ pub fn eof_world(rng: &mut Rng, runtime: &[Vec<u8>]) -> World {
             for s in 0..rng.below(4) {
                 st.insert(U256::from(s), U256::from(rng.below(5)));
             }
-            w.accounts.insert(*a, Acct { balance: U256::from(rng.below(1000)), nonce: 1, code: c.clone(), storage: st });
+            // (a zero balance makes value-bearing EOFCREATE / EXTCALL fail before a frame exists)
+            let bal = if rng.chance(1, 3) { 0 } else { rng.below(1000) };
+            w.accounts.insert(*a, Acct { balance: U256::from(bal), nonce: 1, code: c.clone(), storage: st });
         }
     }
     w.accounts.insert(C4, Acct { balance: U256::from(100u64), nonce: 1, code: legacy_caller(C1), ..Default::default() });
@@ -240,6 +242,15 @@ pub fn build_eof_case(rng: &mut Rng, runtime: &[Vec<u8>], initcodes: &[Vec<u8>])
             }
             nonce += 1;
             txs.push(tx);
+        }
+    }
+    // a create transaction whose EF00 data does not validate (rejected before any frame exists)
+    if rng.chance(1, 3) {
+        let base = initcodes.first().or(runtime.first()).cloned().unwrap_or_else(|| vec![0xef, 0x00, 0x01]);
+        let data = mutate(rng, &base);
+        if data.starts_with(&[0xef, 0x00]) {
+            txs.push(TxSpec { caller: SENDER1, to: None, gas_limit: 500_000, gas_price: U256::from(100u64), nonce: Some(nonce), data, ..Default::default() });
+            nonce += 1;
         }
     }
     for ic in initcodes {
